@@ -59,6 +59,9 @@ type smtpCfg struct {
 	HELO      string   `json:"helo,omitempty"`
 	TimeoutMS int      `json:"timeout_ms,omitempty"`
 	NoNoop    bool     `json:"no_noop,omitempty"`
+	// Fallback: use WithTLSPortPolicy(TLSOpportunistic), which configures a fallback port; the
+	// harness then refuses the first dial so that the session runs on the fallback connection.
+	Fallback bool `json:"fallback,omitempty"`
 }
 
 func (cfg *smtpCfg) options(d *refsmtp.Dialer) []mail.Option {
@@ -67,7 +70,11 @@ func (cfg *smtpCfg) options(d *refsmtp.Dialer) []mail.Option {
 	case "none":
 		opts = append(opts, mail.WithTLSPolicy(mail.NoTLS))
 	case "opportunistic":
-		opts = append(opts, mail.WithTLSPolicy(mail.TLSOpportunistic), mail.WithTLSConfig(clientTLS()))
+		if cfg.Fallback {
+			opts = append(opts, mail.WithTLSPortPolicy(mail.TLSOpportunistic), mail.WithTLSConfig(clientTLS()))
+		} else {
+			opts = append(opts, mail.WithTLSPolicy(mail.TLSOpportunistic), mail.WithTLSConfig(clientTLS()))
+		}
 	default:
 		opts = append(opts, mail.WithTLSPolicy(mail.TLSMandatory), mail.WithTLSConfig(clientTLS()))
 	}
